@@ -392,3 +392,117 @@ func RunCase(line string) string {
 	}
 	return strings.Join(res, ";")
 }
+
+// granted sums the read sizes of the pointers a walk obtained successfully, mirroring
+// Struct.readSize / List.readSize, and reports whether any dereference was refused.
+func granted(p capnp.Ptr, dcap, pcap, fuel int, total *uint64, refused *bool) {
+	vi := p.VerifInfo()
+	if !vi.Valid || fuel == 0 {
+		return
+	}
+	charge := func(q capnp.Ptr) {
+		qi := q.VerifInfo()
+		if !qi.Valid {
+			return
+		}
+		switch qi.Kind {
+		case 0:
+			*total += uint64(qi.DataSize) + 8*uint64(qi.PointerCount)
+		case 1:
+			e := uint64(qi.DataSize) + 8*uint64(qi.PointerCount)
+			if e == 0 {
+				e = 8
+			}
+			*total += e * uint64(int32(qi.LenOrCap))
+		}
+	}
+	defer func() { recover() }()
+	switch vi.Kind {
+	case 0:
+		st := p.Struct()
+		for i := 0; i < capCount(int64(vi.PointerCount), pcap); i++ {
+			q, err := st.Ptr(uint16(i))
+			if err != nil {
+				*refused = true
+				continue
+			}
+			charge(q)
+			granted(q, dcap, pcap, fuel-1, total, refused)
+		}
+	case 1:
+		l := p.List()
+		n := capCount(int64(int32(vi.LenOrCap)), pcap)
+		switch {
+		case vi.BitList:
+		case vi.Composite:
+			for i := 0; i < n; i++ {
+				granted(l.Struct(i).ToPtr(), dcap, pcap, fuel-1, total, refused)
+			}
+		case vi.PointerCount > 0:
+			pl := capnp.PointerList{List: l}
+			for i := 0; i < n; i++ {
+				q, err := pl.At(i)
+				if err != nil {
+					*refused = true
+					continue
+				}
+				charge(q)
+				granted(q, dcap, pcap, fuel-1, total, refused)
+			}
+		}
+	}
+}
+
+// ConcCase: k goroutines walk the same message concurrently; checks the accounting
+// invariants that theorem traversal_bound_conc states for every interleaving:
+// granted <= T always, and final = T - granted when nothing was refused.
+func ConcCase(m *Msg, k, dcap, pcap, fuel int) string {
+	msg := m.Build()
+	T := m.T
+	if T == 0 {
+		T = 64 << 20
+	}
+	root, err := msg.Root()
+	if err != nil {
+		return "ok root-err"
+	}
+	var rootCost uint64
+	ri := root.VerifInfo()
+	if ri.Valid && ri.Kind == 0 {
+		rootCost = uint64(ri.DataSize) + 8*uint64(ri.PointerCount)
+	} else if ri.Valid && ri.Kind == 1 {
+		e := uint64(ri.DataSize) + 8*uint64(ri.PointerCount)
+		if e == 0 {
+			e = 8
+		}
+		rootCost = e * uint64(int32(ri.LenOrCap))
+	}
+	totals := make([]uint64, k)
+	refs := make([]bool, k)
+	done := make(chan int, k)
+	for g := 0; g < k; g++ {
+		go func(g int) {
+			defer func() { done <- g }()
+			granted(root, dcap, pcap, fuel, &totals[g], &refs[g])
+		}(g)
+	}
+	for g := 0; g < k; g++ {
+		<-done
+	}
+	sum := rootCost
+	anyRef := false
+	for g := 0; g < k; g++ {
+		sum += totals[g]
+		anyRef = anyRef || refs[g]
+	}
+	final := msg.VerifReadLimit()
+	switch {
+	case sum > T:
+		return fmt.Sprintf("VIOLATION granted=%d exceeds T=%d", sum, T)
+	case !anyRef && final != T-sum:
+		return fmt.Sprintf("VIOLATION final=%d want %d (T=%d granted=%d)", final, T-sum, T, sum)
+	case final > T-sum:
+		return fmt.Sprintf("VIOLATION final=%d > T-granted=%d", final, T-sum)
+	}
+	return "ok"
+}
